@@ -12,7 +12,7 @@ go test -count=1 ./gosim/rt/ >/dev/null
 (cd /repo && go build -tags verif ./... )
 S=$(mktemp -d "${TMPDIR:-/tmp}/verif-setup.XXXXXX")
 trap 'rm -rf "$S"' EXIT
-./bin/gosim-rewrite -out "$S/rw" github.com/takenet/lime-go golang.org/x/sync/errgroup verif/scen/lib verif/scen/c20 >/dev/null
+./bin/gosim-rewrite -out "$S/rw" github.com/takenet/lime-go golang.org/x/sync/errgroup verif/scen/lib verif/scen/hsrv verif/scen/c20 >/dev/null
 go build -tags verif -overlay "$S/rw/overlay.json" -o "$S/warm.bin" ./scen/c20
 for d in seqx/*/; do [ -d "$d" ] && go build -tags verif -o "$S/warm2.bin" "./$d"; done
 echo setup ok
